@@ -1,11 +1,12 @@
 #!/bin/sh
 # usage: tools/run_seeded.sh [tier] [parallel] [glob]  -- runs every stored independent seeded change (seeded/<id>/patch.diff)
-# against the check of the property it breaks (tools/run_mutant.sh: scratch copy outside /repo and /verif) and prints one
-# CAUGHT / MISSED / INCONCLUSIVE line per seed.  Expected: CAUGHT everywhere.
+# against the check of the property it breaks (tools/run_mutant.sh: scratch copy outside /repo and /verif) and prints, per seed,
+# one line "<dir> CAUGHT|MISSED|INCONCLUSIVE ... | <mechanism counts reported by the check>".  Expected: CAUGHT everywhere (except
+# seeds whose meta.json carries status_on_current_tree = superseded ...), and the mechanisms should be the seeded behaviour.
 tier="${1:-quick}"; par="${2:-3}"; pat="${3:-*}"
 cd "$(dirname "$0")/.." || exit 3
 for d in seeded/$pat/; do
   [ -f "$d/patch.diff" ] || continue
   prop=$(/venv/bin/python -c "import json,sys; print(json.load(open(sys.argv[1]))['breaks_property'])" "$d/meta.json")
   echo "$d $prop"
-done | xargs -P "$par" -L 1 sh -c 'r=$(tools/run_mutant.sh "$PWD/$0patch.diff" "$1" '"$tier"' 2>&1 | tail -1); echo "$0 $r"'
+done | xargs -P "$par" -L 1 sh -c 'o=$(tools/run_mutant.sh "$PWD/$0patch.diff" "$1" '"$tier"' 2>&1); r=$(echo "$o" | tail -1); m=$(echo "$o" | grep "by mechanism" | sed "s/.*by mechanism: //" | head -1); echo "$0 $r | $m"'
